@@ -1,7 +1,7 @@
 (* C01 — Result models accept and preserve every conformant response.  Property theorems only. *)
 From Coq Require Import List String Ascii Bool ZArith.
 From AC Require Import Base.Strs Base.Sexp Base.Json Gql.Schema Gql.Exec Py.Ann Py.Pydantic
-     Model.Names Model.Results Proofs.ResultsP Proofs.ResultsRunP Proofs.ResultsAbsP Proofs.ResultsObjP Proofs.ResultsMixP.
+     Model.Names Model.Results Proofs.ResultsP Proofs.ResultsRunP Proofs.ResultsAbsP Proofs.ResultsObjP Proofs.ResultsMixP Proofs.ResultsMixCovP.
 Import ListNotations.
 Local Open Scope string_scope.
 Local Open Scope list_scope.
@@ -79,6 +79,23 @@ Theorem C01_accepts_partial_mixins :
     accepts n cls (schema_enums S) (AClass (pascal_s name)) j = true.
 Proof. exact op_accepts_mix. Qed.
 Print Assumptions C01_accepts_partial_mixins.
+
+(* preservation with mixin base classes: cov = true (pairwise distinct Python names over the whole
+   object), a payload without repeated keys; op_okM contains reach_ok: every resolved mixin is a listed
+   base or inherited through a listed one (what _remove_inherited_fragments relies on; true of every
+   document whose fragments do not spread each other cyclically) *)
+Theorem C01_preserves_partial_mixins :
+  forall C S frs F kind name sels root own pub' cls g fc j n,
+    root_type_name S kind = Ok root ->
+    op_parse F C S frs kind name [] sels = Ok (own, pub', false) ->
+    all_classes F C S frs (DOp kind name [] sels) = Ok cls ->
+    op_okM g true C S frs root sels = true ->
+    nodupb (map c_name cls) = true -> no_basemodel cls = true -> frag_no_skip F C S frs = true ->
+    conf_op fc S frs root sels j = true -> jwf j = true ->
+    n >= F + g + 2 ->
+    covers n cls (AClass (pascal_s name)) j = true.
+Proof. exact op_covers_mix. Qed.
+Print Assumptions C01_preserves_partial_mixins.
 
 (* per class, with everything it inherits (mro_fields) *)
 Theorem C01_class_with_mixins_accepts :
@@ -395,7 +412,9 @@ Example C01_mixins_hypotheses_satisfiable :
     nodupb (map c_name cls) = true /\ no_basemodel cls = true /\ frag_no_skip 10 C0 SX frsM = true /\
     conf_op 10 SX frsM "Query" selsM jM = true /\
     map c_bases cls = [["BaseModel"]; ["UserBits"]; ["UserMore"]; ["BaseModel"]; ["BaseModel"]] /\
-    accepts 22 cls (schema_enums SX) (AClass (pascal_s "GetUsers")) jM = true.
+    jwf jM = true /\
+    accepts 22 cls (schema_enums SX) (AClass (pascal_s "GetUsers")) jM = true /\
+    covers 22 cls (AClass (pascal_s "GetUsers")) jM = true.
 Proof.
   do 3 eexists.
   split; [reflexivity|].
